@@ -20,7 +20,11 @@ defs and lambdas; decision-tree merges; loops solved by induction), not on the s
       are box points of the driver's bounds;
   D4  NaN polarity;  T6 both trust-region drivers use the same acceptance rule shape.
 REFUTED only for fully understood values (no library result without a model, no loop-carried unknown): a case the executor cannot read
-is UNDECIDED.  Not decided: alpha >= 0, optimality for convex problems, closest-point property beyond the clamp shape, behaviour of
+is UNDECIDED.  One exception, itself a derivation: a value with loop-carried unknowns (a step length multiplied / divided in a search loop)
+is still refuted by a *degenerate-box witness* -- a point feasible for every box containing the feasible x must reduce to p on the box
+lower == upper == {p} (where every projection is p); when value[box points := p] - p has a derived non-zero sign for positive inputs
+(sign of a carried unknown by induction over its loop record: initial value and back-edge value) and no condition on the way pins single
+components against the box, the value leaves the box (`-alpha*g` in a cut-back loop, as opposed to `project(x - alpha*g, bounds) - x`).  Not decided: alpha >= 0, optimality for convex problems, closest-point property beyond the clamp shape, behaviour of
 scipy.optimize.brentq, membership in the trust region.
 """
 from __future__ import annotations
@@ -130,10 +134,11 @@ def _column_of(t, box):
     return None
 
 
-def _in_box(v, box, offset=None):
+def _in_box(v, box, offset=None, interp=None, pc=()):
     """Every case of the value tree v (plus offset) is a convex combination of points of `box` -> (verdict True/False/None, reason).
     False only for a case that is fully understood (no value the executor has no model for, no loop-carried unknown) and positively
-    not such a combination; a case this analysis cannot read gives None."""
+    not such a combination; a case this analysis cannot read gives None.  With `interp` (the executor that produced v) a case that
+    contains loop-carried unknowns is still decided when a *degenerate-box witness* can be derived for it (see _degenerate_witness)."""
     verdict, why = True, ""
     if offset is not None:
         v = S.add(v, offset)
@@ -154,11 +159,183 @@ def _in_box(v, box, offset=None):
             reason = r.why
         cond = " and ".join(("" if p else "not ") + S.brief(c, 50, 2) for (c, p) in cs[:2])
         reason = f"`{S.brief(leaf, 120, 3)}`: {reason}" + (f" (case: {cond})" if cond else "")
+        if unknown and interp is not None and not r.ok:
+            w = _degenerate_witness(leaf, box, interp, tuple(pc) + tuple(cs))
+            if w is not None:
+                unknown = False
+                reason += (f"; on a degenerate box (lower == upper: the feasible point and every projection onto the box are its single point p) "
+                           f"the value is p + `{S.brief(w, 100, 3)}`, which differs from p for positive inputs (step length, gradient ...) "
+                           f"-- a witness derived through the loop-carried values")
         if unknown and verdict is True:
             verdict, why = None, reason
         elif not unknown and verdict is not False:
             verdict, why = False, reason
     return verdict, why
+
+
+# ---- degenerate-box witness
+#
+# A point that is feasible for EVERY box containing the feasible x must, in particular, be feasible for the degenerate box
+# lower == upper == x, whose only point is p = x: there clamp(v, lower, upper) == p for every v, every "some point of the box" is p, the
+# bounds themselves are p.  So the value, rewritten under F -> p for every box point F of the box, must be identically p.  When the
+# difference D = value[F := p] - p is *not* identically zero, one admissible input for which D != 0 refutes feasibility.  The witness used
+# here: every free input (parameters, their fields) is positive in every component.  The sign of D for that input is derived on the terms:
+# constants, products, quotients, roots, inner products; a decision tree has a sign when all its cases agree; a loop-carried unknown has
+# the sign s when its initial value has sign s and its back-edge value has sign s under the hypothesis that it (and the other carried
+# unknowns being examined) has sign s at the loop head -- induction over the iterations, read off the loop records of the executor.
+# Anything else (calls, values without a model, box points of another box) has no derived sign: no witness, the case stays undecided.
+
+_POINT = mk("sym", "<the single point of the degenerate box>")
+
+
+def _degenerate(t, box):
+    """t on the degenerate box lower == upper == {p}: every box point of `box` (projection, feasible input, `some point of the box`) and
+    both bounds become p."""
+    mapping = {box[0].key: _POINT, box[1].key: _POINT}
+    for k in S.atoms_of(t):
+        a = term(k)
+        if a.k in S.F_KINDS:
+            b = S.box_of(a)
+            if b is not None and (b[0].key, b[1].key) == (box[0].key, box[1].key):
+                mapping[k] = _POINT
+    return S.subst(t, mapping)
+
+
+def _carried(I, phi):
+    """(initial value, back-edge value) of the loop-carried unknown phi, from the executor's loop records"""
+    for r in I.loops.values():
+        if getattr(r, "label", None) != phi.a[0]:
+            continue
+        for k in r.head:
+            if S._kname(k) == phi.a[1]:
+                init, back = r.init.get(k), r.back.get(k)
+                if init is None or back is None or init is S.UNBOUND or back is S.UNBOUND:
+                    return None
+                return init, back
+    return None
+
+
+def _witness_sign(t, box, I, hyp, depth=0):
+    """Sign (+1 / -1 / 0, the same in every component) of t on the degenerate box for the input `every free symbol is positive`;
+    None when no sign is derived."""
+    if depth > 40:
+        return None
+    k = t.k
+    rec = lambda u: _witness_sign(u, box, I, hyp, depth + 1)
+    if k == "ite":
+        signs = {rec(l) for (_, l) in leaves(t)}
+        return signs.pop() if len(signs) == 1 else None
+    if k == "num":
+        found = set()
+        for m, c in t.a[0].t.items():
+            sg = 1 if c > 0 else (-1 if c < 0 else 0)
+            for a, e in m:
+                sa = rec(term(a))
+                if sa is None:
+                    return None
+                sg *= sa ** e
+            found.add(sg)
+        found.discard(0)
+        if not found:
+            return 0
+        return found.pop() if len(found) == 1 else None
+    if k == "sym":
+        return 1
+    if k == "attr":
+        b = t
+        while b.k == "attr" and isinstance(b.a[0], S.T):
+            b = b.a[0]
+        return 1 if b.k == "sym" else None
+    if k == "const":
+        c = S.const_of(t)
+        return None if c is None else (1 if c > 0 else (-1 if c < 0 else 0))
+    if k == "phi":
+        if t.key in hyp:
+            return hyp[t.key]
+        ib = _carried(I, t)
+        if ib is None:
+            return None
+        s0 = rec(_degenerate(ib[0], box))
+        if s0 is None:
+            return None
+        hyp[t.key] = s0
+        try:
+            sb = rec(_degenerate(ib[1], box))
+        finally:
+            del hyp[t.key]
+        return s0 if sb == s0 else None
+    if k == "div":
+        sa, sb = rec(t.a[0]), rec(t.a[1])
+        return None if sa is None or not sb else sa * sb
+    if k == "dot":
+        sa, sb = rec(t.a[0]), rec(t.a[1])
+        return None if sa is None or sb is None else sa * sb
+    if k in ("norm", "abs"):
+        sa = rec(t.a[0])
+        return None if sa is None else (1 if sa else 0)
+    if k == "sqrt":
+        sa = rec(t.a[0])
+        return sa if sa in (0, 1) else None
+    if k in ("min", "max"):
+        sa, sb = rec(t.a[0][0]), rec(t.a[0][1])
+        return sa if sa is not None and sa == sb else None
+    if k == "pow":
+        e = S.const_of(t.a[1])
+        sa = rec(t.a[0])
+        if e is None or e.denominator != 1 or not sa:
+            return None
+        return sa ** int(abs(e))
+    return None
+
+
+def _pins_components(c, box):
+    """Does the condition c mention the box (its bounds, their container, a point of it) outside an aggregate over all components (inner
+    product, norm)?  Such a test may constrain single components (`lower <= x - alpha*g`), and then the path need not be open to the witness,
+    whose box is degenerate in some component only; a test on aggregates (`s@s > radius**2`, the model decrease) leaves every single
+    component free."""
+    keys = {box[0].key, box[1].key}
+    for b in box:
+        if b.k == "col" and isinstance(b.a[0], S.T):
+            keys.add(b.a[0].key)
+    seen = set()
+
+    def walk(x):
+        if isinstance(x, S.T):
+            if x.key in seen:
+                return False
+            seen.add(x.key)
+            if x.k in ("dot", "norm"):
+                return False
+            if x.key in keys:
+                return True
+            if x.k in S.F_KINDS:
+                b = S.box_of(x)
+                if b is not None and (b[0].key in keys or b[1].key in keys):
+                    return True
+            if x.k == "num":
+                return any(walk(term(a)) for a in x.a[0].atoms())
+            return any(walk(y) for y in x.a)
+        if isinstance(x, (tuple, list)):
+            return any(walk(y) for y in x)
+        return False
+    return walk(c)
+
+
+def _degenerate_witness(leaf, box, I, conds=()):
+    """The term D != 0 with  leaf == p + D  on the degenerate box, when a non-zero sign of D is derived for the positive input; else None.
+    conds: the conditions under which the value is built; none of them may pin single components against the box."""
+    if leaf.k == "ite" or not S.is_num(leaf) or not S.understood(leaf):
+        return None
+    if any(_pins_components(c, box) for (c, _) in conds):
+        return None
+    try:
+        d = S.sub(_degenerate(leaf, box), _POINT)
+        if d.k == "ite":
+            return None
+        sg = _witness_sign(d, box, I, {})
+    except RecursionError:
+        return None
+    return d if sg in (1, -1) else None
 
 
 def _interp(ctx, **kw):
@@ -237,7 +414,7 @@ def d3_feasible(ctx):
     I.compact_above = 10 ** 6
     res, fr = I.run(pj, {})
     for ev in [e for e in I.events if e["kind"] == "return" and e["frame"] == fr.id]:
-        ok, why = _in_box(ev["value"], _box(Bp))
+        ok, why = _in_box(ev["value"], _box(Bp), interp=I, pc=ev["pc"])
         if ok is True:
             ls = [l for (_, l) in leaves(ev["value"])]
             if not all(l.k == "clamp" for l in ls):
@@ -290,7 +467,7 @@ def d3_feasible(ctx):
     Bt = mk("sym", pt.params()[2])
     res, fr = I.run(pt, {})
     for ev in [e for e in I.events if e["kind"] == "return" and e["frame"] == fr.id]:
-        ok, why = _in_box(ev["value"], _box(Bt))
+        ok, why = _in_box(ev["value"], _box(Bt), interp=I, pc=ev["pc"])
         ctx.decide(rule, ok, pt, ev["node"], construct=f"project_onto_tr-return:{_txt(ev['node'].value, 40) if ev['node'].value is not None else ''}",
                    detail="returns a box projection",
                    bad_detail=f"project_onto_tr returns {why}, which is not a box projection (the point may leave the feasible set)")
@@ -350,12 +527,12 @@ def d3_feasible(ctx):
     if not accepts:
         ctx.undecided(rule, drv, None, construct="driver:trial-point", detail="replacement of the iterate not found")
     for e in accepts:
-        ok, why = _in_box(e["value"], _box(Bd))
+        ok, why = _in_box(e["value"], _box(Bd), interp=I, pc=e["pc"])
         if ok is not False:
             # the first iteration of the main loop starts from the feasible start itself (exact values, no induction hypothesis)
             for f in _all_events(I):
                 if f is not e and f["kind"] == "assign" and f["node"] is e["node"] and f["name"] == e["name"] and f["frame"] == fr.id:
-                    o1, w1 = _in_box(f["value"], _box(Bd))
+                    o1, w1 = _in_box(f["value"], _box(Bd), interp=I, pc=f["pc"])
                     if o1 is False:
                         ok, why = False, w1 + " (first iteration)"
         ctx.decide(rule, ok, drv, e["node"], construct="driver:trial-point",
@@ -365,7 +542,7 @@ def d3_feasible(ctx):
         ptv, _ = TR._point_flag(e["value"])
         if ptv is None:
             continue
-        ok, why = _in_box(ptv, _box(Bd))
+        ok, why = _in_box(ptv, _box(Bd), interp=I, pc=e["pc"])
         ctx.decide(rule, ok, drv, e["node"], construct=f"driver:returned-point:{TR._short(e['node'])}",
                    detail="the returned point is the feasible start, a box point or the iterate (a box point by induction over the main loop)",
                    bad_detail=f"the returned point is {why}; it is not provably inside `{dps[2]}`")
@@ -413,7 +590,7 @@ def _step_function(ctx, I, fr, scope, index, X, box, tag, what):
     for ev in rets:
         v = ev["value"]
         step = item(v, index)
-        ok, why = _in_box(step, box, offset=X)
+        ok, why = _in_box(step, box, offset=X, interp=I, pc=ev["pc"])
         ctx.decide(rule, ok, scope, ev["node"], construct=f"{tag}-return:{_txt(ev['node'], 50)}", detail=what,
                    bad_detail=f"the step returned here gives the point {why}")
         for (st, name, sc, evs) in _flow_defs(I, step):
@@ -422,7 +599,7 @@ def _step_function(ctx, I, fr, scope, index, X, box, tag, what):
             done.add((id(st), name))
             verdict, why = True, ""
             for e in evs:
-                o, w = _in_box(e["value"], box, offset=X)
+                o, w = _in_box(e["value"], box, offset=X, interp=I, pc=e["pc"])
                 if o is False and verdict is not False:
                     first = any(e is f for r in I.loops.values() for f in r.first_events) and not any(e is f for f in I.events)
                     verdict, why = o, w + (" (first iteration)" if first else "")
@@ -630,6 +807,16 @@ _REFACTOR_M = [
 ]
 
 
+# the last block of find_generalized_cauchy_point: the step is cut back until it fits into the trust region
+_CUTBACK = "            alpha *= cutback\n            s = project(x - alpha*g, bounds) - x\n            ss = s@s"
+_CUTBACK_TAIL = ("            search = ss > deltaSquared and i < maxLineSearchIters\n        if i == maxLineSearchIters:\n"
+                 "            raise RuntimeError('No acceptable Cauchy point found after maximum allowed line search iterations')\n")
+
+
+def _cutback(new_body):
+    return [(_CUTBACK, new_body)]
+
+
 def variants(repo):
     from optilint.selftest import Variant, sub, sub_in_func, alpha_rename, reformat, commute
     from . import C05_variants as V2
@@ -735,6 +922,32 @@ def variants(repo):
         Variant("feasible but different: Cauchy cut-back scales the step", S,
                 sub_in_func("find_generalized_cauchy_point", "            alpha *= cutback\n            s = project(x - alpha*g, bounds) - x\n            ss = s@s",
                             "            alpha *= cutback\n            s = cutback*s\n            ss = s@s"), None),
+        # ---- round 3: one path of the Cauchy search builds the step without the projection every other path applies; the step length is a
+        #      loop-carried value there (no exact first iteration): decided by the degenerate-box witness
+        Variant("round 3: trust-region cut-back of the Cauchy step without the projection", S,
+                _chain(*_cutback("            alpha *= cutback\n            s = -alpha*g\n            ss = s@s")), "D3/T9-feasible-by-construction"),
+        Variant("round 3: cut-back step from a helper that does not project", S,
+                _chain(("    deltaSquared = trSize*trSize\n", "    deltaSquared = trSize*trSize\n    def steepest(a): return -a*g\n"),
+                       *_cutback("            alpha *= cutback\n            s = steepest(alpha)\n            ss = s@s")), "D3/T9-feasible-by-construction"),
+        Variant("round 3: cut-back projects the base point instead of the trial point", S,
+                _chain(*_cutback("            alpha *= cutback\n            s = project(x, bounds) - alpha*g - x\n            ss = s@s")),
+                "D3/T9-feasible-by-construction"),
+        Variant("round 3: forward-tracking trial step without the projection", S,
+                sub_in_func("find_generalized_cauchy_point", "            alphaTry /= cutback\n            sTry = project(x - alphaTry*g, bounds) - x\n",
+                            "            alphaTry /= cutback\n            sTry = -alphaTry*g\n"), "D3/T9-feasible-by-construction"),
+        Variant("round 3: unprojected step rebuilt after the cut-back loop", S,
+                _chain((_CUTBACK_TAIL + "\n    return alpha, s", _CUTBACK_TAIL + "        s = -alpha*g\n\n    return alpha, s")), "D3/T9-feasible-by-construction"),
+        Variant("round 3: refactored Cauchy search, cut-back without the projection", S,
+                _chain(*(_REFACTOR_C + _cutback("            alpha *= cutback\n            s = -alpha*g\n            ss = s@s"))), "D3/T9-feasible-by-construction"),
+        Variant("round 3: cut-back with temporaries (still projected)", S,
+                _chain(*_cutback("            alpha *= cutback\n            step = alpha*g\n            target = project(x - step, bounds)\n"
+                                 "            s = target - x\n            ss = s@s")), None),
+        Variant("round 3: cut-back as while True / break with np.clip (still projected)", S,
+                _chain(("        i = 0\n        search = True\n        while search:\n" + _CUTBACK + "\n            i += 1\n"
+                        "            search = ss > deltaSquared and i < maxLineSearchIters\n",
+                        "        i = 0\n        while True:\n            alpha = cutback*alpha\n"
+                        "            s = np.clip(x - alpha*g, bounds[:,0], bounds[:,1]) - x\n            ss = s@s\n            i += 1\n"
+                        "            if not (ss > deltaSquared and i < maxLineSearchIters):\n                break\n")), None),
     ] + [Variant("round 2: " + nm, S, _chain(*V2.full_chain(key)), expect) for (nm, key, expect) in V2.EXPECT] + [
         Variant("round 2: " + " + ".join(keys), S, _chain(*[pr for k in keys for pr in V2.full_chain(k)]), None)
         for keys in (("n1", "n2", "p1", "q2", "v_split"), ("t3", "p4", "w17", "s1", "q4"), ("s7", "t2", "q3", "t1", "v_partial", "u10"))] + [
